@@ -180,13 +180,13 @@ def register_finalize(reg):
   c.ensures('result_untouched_without_partial_measurements', untouched)
   c.ensures('measurements_published', '%s.measurements is self.measurements' % rec)
   c.ensures('nothing_left_partially_set', 'all(m.outcome is not measurements.Outcome.PARTIALLY_SET for m in self.measurements.values())')
-  c.modifies('Measurement.outcome', 'Measurement.marginal', 'Measurement._notification_cb', res, rec + '.measurements')
+  c.modifies('Measurement.outcome', 'Measurement.marginal', 'Measurement._notification_cb', res, rec + '.measurements', 'owned(Measurement._cached)')
   c.loop('for measurement in self.measurements.values()',
          inv=[('result_rule', result_rule), ('result_untouched_without_partial_measurements', untouched),
               ('no_result_means_the_body_never_ran', '%s is not None or all(m.outcome is not measurements.Outcome.PARTIALLY_SET for m in self.measurements.values())' % res),
               ('processed_are_validated', 'forall_key(lambda k: implies(k in self.measurements and keypos(self.measurements, k) < _i, '
                'self.measurements[k].outcome is not measurements.Outcome.PARTIALLY_SET))')],
-         modifies=['Measurement.outcome', 'Measurement.marginal', 'Measurement._notification_cb', res])
+         modifies=['Measurement.outcome', 'Measurement.marginal', 'Measurement._notification_cb', res, 'owned(Measurement._cached)'])
 
   # ---------------------------------------------------------------- outcome before diagnosers (decision table rows)
   mp = ('all(m.outcome is measurements.Outcome.PASS or (CONF.allow_unset_measurements and m.outcome is measurements.Outcome.UNSET) '
@@ -288,7 +288,7 @@ def register_finalize2(reg):
             "implies((%s is None or %s or %s) and %s is %s, ghost('diag_calls') == old(ghost('diag_calls')))" % (r0, kind0('REPEAT'), kind0('SKIP'), res, r0))
   c.ensures('record_closed', '%s.end_time_millis is not None and %s.options is self.options and %s.measurements is self.measurements' % (rec, rec, rec))
   c.ensures('nothing_left_partially_set', 'all(m.outcome is not measurements.Outcome.PARTIALLY_SET for m in self.measurements.values())')
-  c.modifies('Measurement.outcome', 'Measurement.marginal', 'Measurement._notification_cb', res, rec + '.measurements', rec + '.outcome',
+  c.modifies('owned(Measurement._cached)', 'Measurement.outcome', 'Measurement.marginal', 'Measurement._notification_cb', res, rec + '.measurements', rec + '.outcome',
              rec + '.marginal', rec + '.end_time_millis', rec + '.options', 'list(%s.failure_diagnosis_results)' % rec,
              'list(%s.diagnosis_results)' % rec, 'list(self.test_state.test_record.diagnoses)', 'DiagnosesStore._diagnoses_by_results',
              'DiagnosesStore._diagnoses')
@@ -367,7 +367,7 @@ def register_executor(reg):
   c.modifies('list(%s)' % records, 'self.test_state.running_phase_state', 'self.test_state._running_test_api',
              'PhaseRecord.outcome', 'PhaseRecord.result', 'PhaseRecord.marginal', 'PhaseRecord.end_time_millis',
              'PhaseRecord.start_time_millis', 'PhaseRecord.options', 'PhaseRecord.measurements', 'PhaseRecord.subtest_name',
-             'Measurement.outcome', 'Measurement.marginal', 'Measurement._notification_cb',
+             'Measurement.outcome', 'Measurement.marginal', 'Measurement._notification_cb', 'owned(Measurement._cached)',
              'DiagnosesStore._diagnoses_by_results', 'DiagnosesStore._diagnoses', 'list(self.test_state.test_record._cached_phases)',
              'list(self.test_state.test_record.diagnoses)')
 
